@@ -6,32 +6,52 @@ Every case is a SESSION on one `Network` object: a graph with node positions and
     ["D", s, t|"-", cut, d]   shortest_distance(s, t | None, cut[, output_dict])
     ["F", s, t|"-", cut, d]   run_routing_forward(s, t | None, cut[, output_dict])
     ["B", t]              run_routing_backward(t) on the flags left by the last search
-A node argument is "3" (the id), "o3" (the network's Node object) or "f3" (a fresh Node object with that id);
+A node argument is "3" (the id), "o3" (the network's Node object) or "f3" (a fresh Node object with that id); "scribble": every returned track is modified by the caller afterwards;
 `d` = 1: the session's output_dict is passed. Cases without "ops" query every ordered pair with `shortest_path`
 (s-major) on the same object; "seq": "euler" = a sequence of `shortest_path` calls in which every ordered pair of
 queries occurs consecutively."""
 import itertools
 from fractions import Fraction
-from engine import Prop
+from engine import Prop, fbits, bitsf
 from props import netcommon as nc
 
 
-def cutval(tokn):
-    return None if tokn == "none" else Fraction(tokn)
+TOL = Fraction(1, 10**9)
 
 
-def within(d, c):
-    return d is not None and (c is None or d <= c)
+def cutval(tokn, fl=False):
+    """cut-off token -> exact number (float cases: the token is the repr of the float handed to tracklib)"""
+    if tokn == "none":
+        return None
+    return Fraction(float(tokn)) if fl else Fraction(tokn)
 
 
-def optimal_walks(n, edges, d, s, t, cap=2):
+def cutpy(tokn, fl=False):
+    return float(tokn) if fl else nc.pynum(tokn)
+
+
+def within(d, c, fl=False):
+    """the true distance d does not exceed the cut-off c (float cases: clearly, by more than the rounding of the sums)"""
+    if d is None:
+        return False
+    if c is None:
+        return True
+    return d <= c - TOL * max(1, abs(c)) if fl else d <= c
+
+
+def same(a, b, fl=False):
+    """equal numbers (float cases: up to the rounding of the sums, 1e-9 relative)"""
+    return abs(a - b) <= TOL * max(1, abs(a), abs(b)) if fl else a == b
+
+
+def optimal_walks(n, edges, d, s, t, cap=2, fl=False):
     """min(2, number of walks of permitted arcs from s to t != s whose weight is d[s][t]) (walks as edge sequences;
     zero-weight cycles give infinitely many). Linear: in the sub-graph of the tight arcs that lie on some optimal walk
     to t, there are two walks iff some node has two outgoing arcs or t has one."""
     if d[s][t] is None:
         return 0
     tight = [(u, v) for (u, v, w, i) in nc.arcs(edges)
-             if d[s][u] is not None and d[s][v] is not None and d[s][u] + w == d[s][v]]
+             if d[s][u] is not None and d[s][v] is not None and same(d[s][u] + w, d[s][v], fl)]
     fwd, bwd = {}, {}
     for (u, v) in tight:
         fwd.setdefault(u, []).append(v)
@@ -196,11 +216,14 @@ def add_parallels(rng, g):
     return g
 
 
-def random_ops(rng, n, d):
+def random_ops(rng, n, d, fl=False):
     """a sequence of calls: single queries, the same query twice, a path after a distance-only search and vice versa,
     backward passes for several targets after one search, an unreachable target after a reachable one, source = target,
     cut-offs below / at / above distances"""
     cuts = [nc.tok(c) for c in nc.cuts_for(d) if c >= 0] or ["0"]
+    if fl:      # float weights: cut-offs clearly between / beyond the distinct distances (never within rounding of one)
+        ds = sorted({x for row in d for x in row if x is not None})
+        cuts = [repr(float((a + b) / 2)) for a, b in zip(ds, ds[1:]) if b - a > Fraction(1, 10**6) * max(1, b)] + [repr(float(ds[-1]) * 1.5 + 1.0)]
     form = lambda v: rng.choice(["", "", "", "o", "f"]) + str(v)
     cut = lambda: "none" if rng.random() < 0.55 else rng.choice(cuts)
     ud = lambda: 1 if rng.random() < 0.3 else 0
@@ -235,7 +258,8 @@ def random_ops(rng, n, d):
             ops.append(["B", form(t)])
         elif r < 0.8 and d[s][t] is not None:             # cut-off just below / at the true distance
             c = d[s][t] - rng.choice([Fraction(1, 2), 0, Fraction(1, 2), 1])
-            ops.append(["P", form(s), form(t), nc.tok(max(c, 0)), ud()])
+            ctok = nc.tok(max(c, 0)) if not fl else repr(float(d[s][t]) * rng.choice([0.5, 0.999, 1.001, 2.0]))
+            ops.append(["P", form(s), form(t), ctok, ud()])
             ops.append(["B", form(node())])
         elif r < 0.9:
             ops.append(["P", form(s), form(t), "none", 0])
@@ -283,9 +307,10 @@ class P(Prop):
             "different weight) with node positions on an integer lattice (some coincident) and edge polylines of 1-5 vertices from the source's to the target's position (straight, bent, repeated "
             "consecutive vertices, coming back over an end point, over another node, closed loops); a 'loose' stream whose polylines ignore the node positions (0-4 vertices; geometry compared "
             "with the model only). Networks built with int or str ids, with the caller's Node objects / fresh Node objects per edge (as NetworkReader) / nodes created by addEdge; edge geometries "
-            "with or without an analytical feature. Calls: every ordered pair by shortest_path on ONE object; for the same enumerated graphs a sequence in which every ordered pair "
+            "with or without an analytical feature; in a third of the random cases the caller moves the points of every track it is given (aliasing with the network would show in later answers). Calls: every ordered pair by shortest_path on ONE object; for the same enumerated graphs a sequence in which every ordered pair "
             "of queries is consecutive; random sessions mixing shortest_path, shortest_distance (pair / list), run_routing_forward, run_routing_backward (several targets after one search, before "
-            "any search), nodes by id / own object / fresh object, output_dict, source = target, unreachable after reachable, cut-offs below / at / above the distances. "
+            "any search), nodes by id / own object / fresh object, output_dict, source = target, unreachable after reachable, cut-offs below / at / above the distances. A float stream (kind sess-float): weights = polyline lengths / multiples of 0.1 / uniform reals, model instantiated at Float and compared bit for bit, "
+            "oracle in exact rationals with 1e-9 relative tolerance. "
             "non-trivial = some call returns a path; tags count zero-weight edges, edges traversed against their stored direction, ties, op kinds")
 
     def setup(self):
@@ -315,6 +340,8 @@ class P(Prop):
                 g["build"] = "lazy"
             if rng.random() < 0.2:
                 g["af"] = 1
+            if rng.random() < 0.3:
+                g["scribble"] = 1
         else:
             pos, lines = nc.random_geometry(rng, g["n"], nc.expand(g))
         g["pos"] = pos
@@ -336,7 +363,7 @@ class P(Prop):
                     e = list(e); rng.shuffle(e)
                     order = list(range(n)); rng.shuffle(order)
                     out.append(self.with_geometry(rng, {"kind": "ex3", "n": n, "order": order, "e": e}))
-        nsmall, nbig, nsess = (1500, 400, 4000) if tier == "quick" else (20000, 5000, 100000)
+        nsmall, nbig, nsess, nfloat = (1500, 400, 4000, 1500) if tier == "quick" else (20000, 5000, 100000, 30000)
         for _ in range(nsmall):
             g = dict(nc.random_graph(rng, small=True), kind="rnd-small")
             if rng.random() < 0.3:
@@ -363,7 +390,33 @@ class P(Prop):
                 add_parallels(rng, g)
             g["ops"] = random_ops(rng, g["n"], nc.floyd_warshall(g["n"], g["edges"]))
             out.append(self.with_geometry(rng, g, ext=True))
+        for _ in range(nfloat):
+            g = nc.random_graph(rng, small=True) if rng.random() < 0.7 else nc.random_graph(rng, nmax=rng.choice([5, 8, 12]), emax=rng.choice([8, 20]))
+            g["kind"] = "sess-float"
+            g["float"] = 1
+            if rng.random() < 0.3:
+                add_parallels(rng, g)
+            self.with_geometry(rng, g, ext=True)
+            self.float_weights(rng, g)
+            d = nc.floyd_warshall(g["n"], g["edges"])
+            if rng.random() < 0.6:
+                g["ops"] = random_ops(rng, g["n"], d, fl=True)
+            out.append(g)
         return out
+
+    def float_weights(self, rng, g):
+        """float weights whose sums round: the length of the edge's polyline (what NetworkReader takes when the file has no
+        weight column), multiples of 0.1 (0.1 + 0.2 > 0.3 in floats: near-ties), uniform reals; some zero"""
+        style = rng.random()
+        for k, e in enumerate(g["edges"]):
+            l = g["lines"][k]
+            if style < 0.4:
+                w = float(sum(((l[i][0] - l[i + 1][0]) ** 2 + (l[i][1] - l[i + 1][1]) ** 2) ** 0.5 for i in range(len(l) - 1)))
+            elif style < 0.75:
+                w = rng.choice([0.0, 0.1, 0.1, 0.2, 0.3, 0.3, 0.7, 1.1])
+            else:
+                w = rng.choice([0.0, rng.random(), rng.random() * 10, rng.uniform(0, 1e-3)])
+            e[3] = w
 
     def describe(self, case):
         edges = nc.expand(case)
@@ -378,7 +431,7 @@ class P(Prop):
                 "zero_weight": any(nc.num(e[3]) == 0 for e in edges), "reverse_only_edge": any(e[4] < 0 for e in edges),
                 "tie": ties, "line_sizes": "".join(sorted({str(len(l)) for l in case["lines"]})),
                 "cut": any(o[0] != "B" and o[3] != "none" for o in ops),
-                "ids": case.get("ids", "int"), "build": case.get("build", "plain"), "loose": bool(case.get("loose")), "af": bool(case.get("af")),
+                "ids": case.get("ids", "int"), "build": case.get("build", "plain"), "loose": bool(case.get("loose")), "af": bool(case.get("af")), "scribble": bool(case.get("scribble")), "float_weights": bool(case.get("float")),
                 "parallel_equal_weight": par, "repeated_vertex": rep,
                 "op_kinds": "".join(sorted({o[0] for o in ops})),
                 "node_forms": "".join(sorted({(a[0] if a[0] in "of" else "i") for o in ops for a in o[1:3] if isinstance(a, str) and a not in ("-", "none")})),
@@ -414,7 +467,15 @@ class P(Prop):
                 break
             used.append(einv.get(node.antecedent_edge, repr(node.antecedent_edge)))
             node = node.antecedent
-        return {"p": {"path": path, "xy": xy, "edges": used[::-1], "af": list(trk.getListAnalyticalFeatures())}, "label": label}
+        res = {"p": {"path": path, "xy": xy, "edges": used[::-1], "af": list(trk.getListAnalyticalFeatures())}, "label": label}
+        if case.get("scribble"):
+            # what a caller may do with a track it was given: move its points, empty its node list. If the track shared
+            # objects with the network (edge geometries, node coordinates) the later answers of the session show it.
+            for o in trk:
+                o.position.setX(o.position.getX() + 1000)
+                o.position.setY(-7)
+            del trk.path[:]
+        return res
 
     def impl(self, case):
         n = case["n"]
@@ -448,7 +509,7 @@ class P(Prop):
                     continue
                 kw = {}
                 if op[3] != "none":
-                    kw["cut"] = nc.pynum(op[3])
+                    kw["cut"] = cutpy(op[3], bool(case.get("float")))
                 if op[4]:
                     kw["output_dict"] = od
                 if kind == "P":
@@ -473,14 +534,17 @@ class P(Prop):
         pos = ";".join(flat([p]) for p in case["pos"]) if case["pos"] else "_"
         lines = ";".join(flat(l) for l in case["lines"]) if case["lines"] else "_"
         a = lambda x: x.replace("f", "o")
+        fl = bool(case.get("float"))
+        ct = lambda c: c if (c == "none" or not fl) else fbits(float(c))
         ops = []
         for o in ops_of(case):
             if o[0] == "B":
                 ops.append("B:%s" % a(o[1]))
             else:
-                ops.append("%s:%s:%s:%s:%d" % (o[0], a(o[1]), a(o[2]), o[3], 1 if o[4] else 0))
-        return ["C07.session %d %s %s %s %s %d %s" % (case["n"], ",".join(str(v) for v in eff_order(case)), nc.edges_token(edges), pos, lines,
-                                                     1 if case.get("af") else 0, ";".join(ops) if ops else "_")]
+                ops.append("%s:%s:%s:%s:%d" % (o[0], a(o[1]), a(o[2]), ct(o[3]), 1 if o[4] else 0))
+        etok = nc.edges_token(edges) if not fl else (";".join("%d,%d,%d,%s,%d" % (i, u, v, fbits(w), o) for (i, u, v, w, o) in edges) or "_")
+        return ["C07.%ssession %d %s %s %s %s %d %s" % ("f" if fl else "", case["n"], ",".join(str(v) for v in eff_order(case)), etok, pos, lines,
+                                                       1 if case.get("af") else 0, ";".join(ops) if ops else "_")]
 
     def decode(self, case, replies):
         r = replies[0]
@@ -488,6 +552,8 @@ class P(Prop):
             raise ValueError("bad-request")
         outs, dct = r.split("#")
         ops = ops_of(case)
+        fl = bool(case.get("float"))
+        num = (lambda x: x if x == "none" else nc.tok(Fraction(bitsf(x)))) if fl else (lambda x: x)
         items = [] if outs == "_" else outs.split("|")
         if len(items) != len(ops):
             raise ValueError("%d outputs for %d ops" % (len(items), len(ops)))
@@ -498,11 +564,12 @@ class P(Prop):
             elif item == "ok":
                 res.append({"op": "F"})
             elif item.startswith("d="):
-                res.append({"op": "D", "val": item[2:]})
+                res.append({"op": "D", "val": num(item[2:])})
             elif item.startswith("l="):
-                res.append({"op": "D", "vals": [] if item[2:] == "_" else item[2:].split(",")})
+                res.append({"op": "D", "vals": [] if item[2:] == "_" else [num(x) for x in item[2:].split(",")]})
             else:
                 p, label = item.split("@")
+                label = num(label)
                 if p in ("none", "diverge", "features"):
                     res.append({"op": op[0], "p": p, "label": label})
                 else:
@@ -511,7 +578,7 @@ class P(Prop):
                     res.append({"op": op[0], "label": label,
                                 "p": {"path": [int(x) for x in nodes.split(",")], "xy": [[q[i], q[i + 1]] for i in range(0, len(q), 2)]}})
         entries = [] if dct == "_" else [e.split(",") for e in dct.split(";")]
-        return {"ops": res, "dict": sorted([int(e[0]), int(e[1]), e[2]] for e in entries)}
+        return {"ops": res, "dict": sorted([int(e[0]), int(e[1]), num(e[2])] for e in entries)}
 
     def compare(self, case, impl_out, model_out):
         if "err" in impl_out:
@@ -523,9 +590,10 @@ class P(Prop):
         ops = ops_of(case)
         edges = d = None
         last = None
+        fl = bool(case.get("float"))
         for k, (op, x, y) in enumerate(zip(ops, a, b)):
             if op[0] != "B":
-                last = (idx(op[1]), None if op[2] == "-" else idx(op[2]), cutval(op[3]))
+                last = (idx(op[1]), None if op[2] == "-" else idx(op[2]), cutval(op[3], fl))
             if "p" not in x or "p" not in y:
                 if x != y:
                     return "op %d %s: impl=%s model=%s" % (k, op, x, y)
@@ -544,12 +612,12 @@ class P(Prop):
             s0, t0, c0 = last if last else (None, None, None)
             t = idx(op[2]) if op[0] == "P" else idx(op[1])
             if last and isinstance(px, dict) and isinstance(py, dict) and s0 != t and d[s0][t] is not None:
-                complete = (t0 is None or t0 == t) and within(d[s0][t], c0)
+                complete = (t0 is None or t0 == t) and within(d[s0][t], c0, fl)
                 msg, total = self.check_route(case, edges, s0, t, px)
-                if msg is None and x["label"] == nc.tok(total):
+                if msg is None and x["label"] != "none" and same(Fraction(x["label"]), total, fl):
                     if not complete:
                         continue
-                    if total == d[s0][t] and x["label"] == y["label"] and optimal_walks(n, edges, d, s0, t) > 1:
+                    if same(total, d[s0][t], fl) and (fl or x["label"] == y["label"]) and optimal_walks(n, edges, d, s0, t, fl=fl) > 1:
                         continue
             return "op %d %s: impl=%s model=%s" % (k, op, x, y)
         if impl_out["dict"] != model_out["dict"]:
@@ -608,27 +676,30 @@ class P(Prop):
         msg, total = self.check_route(case, edges, s, t, x)
         if msg:
             return msg
-        if total != d[s][t]:
-            return "path %s via edges %s weighs %s, the shortest distance is %s" % (x["path"], x["edges"], nc.tok(total), nc.tok(d[s][t]))
+        fl = bool(case.get("float"))
+        if not same(total, d[s][t], fl):
+            return "path %s via edges %s weighs %s, the shortest distance is %s" % (x["path"], x["edges"], float(total) if fl else nc.tok(total), float(d[s][t]) if fl else nc.tok(d[s][t]))
         return None
 
     def check_result(self, case, edges, d, s, t, c, complete, o, what):
         """the result `o` of a path request to t after a search from s with cut-off c; complete: the search was not
         stopped at another target (it ran to t, or to exhaustion / the cut-off)"""
         x = o["p"]
+        fl = bool(case.get("float"))
+        lab = None if o["label"] == "none" else Fraction(o["label"])
         if s == t:
             return None           # the statement is about targets other than the source
         if d[s][t] is None:
             if x != "none":
                 return "%s returns %s but no permitted walk exists" % (what, x)
             return None
-        if complete and within(d[s][t], c):
+        if complete and within(d[s][t], c, fl):
             if not isinstance(x, dict):
                 return "%s returns %s but the target is reachable at distance %s" % (what, x, nc.tok(d[s][t]))
             m = self.check_pair(case, edges, d, s, t, x)
             if m:
                 return "%s: %s" % (what, m)
-            if o["label"] != nc.tok(d[s][t]):
+            if lab is None or not same(lab, d[s][t], fl):
                 return "%s: the weights of the path sum to %s but the distance reported (NODES[target].poids) is %s" % (what, nc.tok(d[s][t]), o["label"])
             return None
         # cut-off below the true distance, or a backward pass after a search stopped at another target: the statement does
@@ -638,7 +709,7 @@ class P(Prop):
             m, total = self.check_route(case, edges, s, t, x)
             if m:
                 return "%s: %s" % (what, m)
-            if o["label"] != nc.tok(total):
+            if lab is None or not same(lab, total, fl):
                 return "%s: the weights of the path sum to %s but the value reported for the target (NODES[target].poids) is %s" % (what, nc.tok(total), o["label"])
         elif x != "none":
             return "%s returns %s" % (what, x)
@@ -670,7 +741,7 @@ class P(Prop):
                 if m:
                     return m
                 continue
-            s, t, c = idx(op[1]), (None if op[2] == "-" else idx(op[2])), cutval(op[3])
+            s, t, c = idx(op[1]), (None if op[2] == "-" else idx(op[2])), cutval(op[3], bool(case.get("float")))
             last = (s, t, c)
             if op[0] == "P":
                 m = self.check_result(case, edges, d, s, t, c, True, o,
@@ -691,7 +762,7 @@ class P(Prop):
                     simp[4] = 0
                 if simp != o:
                     yield dict(case, ops=ops[:k] + [simp] + ops[k + 1:])
-        for key in ("ids", "build", "af"):
+        for key in ("ids", "build", "af", "scribble"):
             if key in case:
                 yield {k: v for k, v in case.items() if k != key}
         if case.get("seq") == "euler":
